@@ -7,12 +7,23 @@ cd /verif
 ids="$@"; [ -z "$ids" ] && ids=$(ls seeded | grep -E '^C[0-9]+-[A-Z]$')
 rc=0
 for id in $ids; do
-  d=seeded/$id
+  d=/verif/seeded/$id
   [ -f $d/patch.diff ] || continue
   target=$(python3 -c "import json;print(json.load(open('$d/meta.json'))['breaks_property'])")
   prev=$(python3 -c "import json;print(' '.join(json.load(open('$d/meta.json')).get('caught_by',[])))")
   out=$(tools/check_patch.sh $d/patch.diff $target 2>&1)
-  if echo "$out" | grep -q "^VIOLATION"; then echo "$id: reported by $target"; continue; fi
+  if echo "$out" | grep -q "^VIOLATION"; then
+    echo "$id: reported by $target"
+    python3 - "$d/meta.json" "$target" <<'PY'
+import json,sys
+m=json.load(open(sys.argv[1]))
+cb=m.get('caught_by',[])
+if sys.argv[2] not in cb:
+    cb.append(sys.argv[2]); cb.sort(); m['caught_by']=cb
+    json.dump(m,open(sys.argv[1],'w'),indent=1)
+PY
+    continue
+  fi
   hit=""
   for p in $prev; do
     [ "$p" = "$target" ] && continue
